@@ -230,6 +230,10 @@ func Concretize(e *Edge, n int) Concrete {
 					plan.Err = fmt.Errorf("verdict-%d", n)
 				case "panic":
 					plan.Panic = true
+				case "mid1", "mid4":
+					plan.ReadMode = rec.ReadK
+					plan.K = map[string]int{"mid1": 1, "mid4": 4}[c.P]
+					plan.Err = fmt.Errorf("verdict-%d", n)
 				}
 				if hasCb("Data.begin") || hasCb("LMTPData.begin") {
 					k.Setup = func(be *rec.Backend) { be.DataPlans = []rec.DataPlan{plan} }
